@@ -157,8 +157,29 @@ pub fn gen_op(rng: &mut Rng, n: usize, len: usize, allow_forget: bool) -> Op {
     }
 }
 
+fn fault_kinds_for(op: &Op) -> &'static [FpKind] {
+    match op {
+        Op::TruncateBack(_) | Op::TruncateFront(_) | Op::Clear | Op::Drain(_, _, End::Drop) => &[FpKind::Drop],
+        Op::Extend(_) | Op::ExtendHinted(..) => &[FpKind::Drop, FpKind::IterNext],
+        Op::ExtendFromSlice(_) | Op::Fill | Op::CloneFrom(_) => &[FpKind::Drop, FpKind::Clone],
+        Op::FillSpare | Op::ToVec | Op::CloneBuf => &[FpKind::Clone],
+        Op::FillWith => &[FpKind::Drop, FpKind::Closure],
+        Op::FillSpareWith => &[FpKind::Closure],
+        Op::EqSelf => &[FpKind::Eq],
+        Op::CmpSelf | Op::MakeContiguous(true) => &[FpKind::Cmp],
+        Op::HashSelf => &[FpKind::Hash],
+        Op::DebugFmt(_) => &[FpKind::Fmt],
+        _ => &[],
+    }
+}
+
 pub fn random<const N: usize, P: Pad>(ctx: &mut Ctx) {
     let total = ctx.args.num("ops", 20_000);
+    let with_faults = ctx.args.flag("faults");
+    let repaint = ctx.args.flag("repaint") && !P::HEAP;
+    if repaint {
+        ctx.panic_props = vec!["C04", "C11"];
+    }
     ctx.can_skip = false;
     let _ = items_off::<N, P>();
     let mut rng = Rng::new(ctx.args.seed ^ hash64(&format!("random|{}|{}|{}", N, P::NAME, ctx.args.shard.0)));
@@ -187,12 +208,42 @@ pub fn random<const N: usize, P: Pad>(ctx: &mut Ctx) {
                 return;
             }
             let mut leaked = false;
+            if repaint {
+                ctx.attribute = Some("C04");
+            }
+            let dead = TokG::<P>::new(3);
+            let dead_img = image(&dead);
+            drop(dead);
+            let live_tok = TokG::<P>::new_pinned(2);
+            let live_img = image(&live_tok);
             for i in 0..hist {
                 let op = gen_op(&mut rng, N, model.len(), true);
                 let full = !big || (i % 64 == 0);
                 let mon = if full { MonCfg::FULL } else { MonCfg::LIGHT };
+                if repaint && rng.chance(1, 6) {
+                    let f = *rng.pick(&FILLINGS);
+                    if let Some(b) = poke(h.buf(), f, &dead_img, &live_img) {
+                        ctx.count("garbage_bytes_poked", b as u64);
+                    }
+                }
                 let lay = measured_layout(h.buf_ref(), &pre);
-                let out = step(&mut h, &mut model, &op, &mut env, ctx, &mon, None, Some(&pre));
+                let mut fault = None;
+                if with_faults && rng.chance(1, 12) {
+                    let ks = fault_kinds_for(&op);
+                    if !ks.is_empty() {
+                        fault = Some((*rng.pick(ks), 1 + rng.below(3) as u32));
+                    }
+                }
+                let out = step(&mut h, &mut model, &op, &mut env, ctx, &mon, fault, Some(&pre));
+                if out.injected {
+                    // whatever goes wrong from here on in this history refutes the fault property
+                    let k = fault.unwrap().0;
+                    ctx.attribute = Some(if k == FpKind::Drop { "C05" } else { "C06" });
+                    if k == FpKind::Drop {
+                        leaked = true;
+                    }
+                    ctx.distinct.insert(hash64(&format!("fault|{}|{}|{:?}|{}", N, op.name(), k, layout_class(N, lay, pre.ids.len()))));
+                }
                 if matches!(op, Op::Drain(_, _, End::Forget)) {
                     leaked = true;
                 }
@@ -217,7 +268,10 @@ pub fn random<const N: usize, P: Pad>(ctx: &mut Ctx) {
             }
             vc = env.vc;
             teardown(h, ctx, "history", None, leaked);
+            drop(live_tok);
+            flush_events(ctx, "history", N, "after_history", None);
         }));
+        ctx.attribute = None;
         if res.is_err() {
             ctx.record_escaped_panic();
         }
